@@ -820,7 +820,9 @@ func (g *SchemaGen) GenValid(s *Schema, depth int) (any, bool) {
 		var v any
 		switch s.Type {
 		case "string":
-			if s.Pattern != nil {
+			if s.Format == "byte" {
+				v = lp.Pick(r, []string{"", "AA==", "AAEC/w==", "Zm9v"})
+			} else if s.Pattern != nil {
 				v = lp.Pick(r, s.Pattern.ok)
 			} else {
 				v = lp.Pick(r, sampleStrings)
